@@ -109,3 +109,6 @@ CFG["manifest"] = dict(
           "extractor, extraction + driver glue (cross-checked by vm_compute), Go harness."),
     technique="Coq proof (LTS, invariants over all schedules, conservation argument) + source facts + forced-schedule harness under -race",
 )
+
+import tables  # constant tables / literals of the current source proved equal to the model's on every run (lib/tables.py)
+CFG["secondary"] = CFG.get("secondary", []) + [tables.C02_TABLES]
